@@ -8,6 +8,7 @@
    "QUIT removes exactly the marked messages", "the announced size is what is delivered". *)
 From Asimap Require Import Base.Res Base.Bytes.
 Open Scope Z_scope.
+Open Scope list_scope.
 
 Definition crlf : list Z := [13; 10].
 
@@ -15,10 +16,11 @@ Definition crlf : list Z := [13; 10].
 (* the lines of a byte string: the pieces between CRLF pairs (leftmost, non overlapping) *)
 Definition lines (b : list Z) : list (list Z) := split2 13 10 b.
 
-Definition is_dot (l : list Z) : bool := match l with [46] => true | _ => false end.
+Definition is_dot (l : list Z) : bool := match l with [x] => x =? 46 | _ => false end.
 
 (* byte-stuffing undone on one line: a leading "." is dropped *)
-Definition unstuff_line (l : list Z) : list Z := match l with 46 :: l' => l' | _ => l end.
+Definition unstuff_line (l : list Z) : list Z :=
+  match l with x :: l' => if x =? 46 then l' else l | [] => [] end.
 
 (* un-stuffing of a payload (no terminator): line by line *)
 Definition unstuff (b : list Z) : list Z := bytes_join crlf (map unstuff_line (lines b)).
@@ -36,7 +38,7 @@ Fixpoint collect (ls : list (list Z)) : option (list Z) :=
   end.
 Definition receive (wire : list Z) : option (list Z) := collect (lines wire).
 
-Definition octets (d : list Z) : Z := Z.of_nat (length d).
+Definition octets (d : list Z) : Z := Z.of_nat (List.length d).
 
 (* ------------------------------------------------------------ events *)
 (* A message as the e-mail library renders it (these three byte strings are oracles:
